@@ -309,5 +309,78 @@ theorem next_spec {K : Nat} {D : Data} {P : Params} {s : State K} {c : Choice}
     · show s1.active.count = _
       rw [hinv1.count, hact1]
 
+/-! ### a failed `WeightedIndex::new` -/
+
+theorem excludeSequence_starts {K : Nat} {D : Data} {w : Nat} {s s1 : State K} {z : Nat}
+    (h : excludeSequence D w s z = .ok s1) : s1.starts = s.starts := by
+  unfold excludeSequence at h
+  split at h
+  · cases h
+  · dsimp only at h
+    cases ht : s.active.test z with
+    | error e => rw [ht] at h; cases h
+    | ok b =>
+      rw [ht] at h
+      cases b with
+      | false => cases h; rfl
+      | true =>
+        dsimp only at h
+        cases h1 : subWindow (D.seq z) (s.starts.getD z 0) w s.motif with
+        | error e => rw [h1] at h; cases h
+        | ok m =>
+          rw [h1] at h; dsimp only at h
+          cases h2 : bgAddWindow (D.seq z) (s.starts.getD z 0) w s.bg with
+          | error e => rw [h2] at h; cases h
+          | ok b1 =>
+            rw [h2] at h; dsimp only at h
+            cases h3 : subCounts K (D.cnt z) b1 with
+            | error e => rw [h3] at h; cases h
+            | ok b2 =>
+              rw [h3] at h; dsimp only at h
+              cases h4 : s.active.unset z with
+              | error e => rw [h4] at h; cases h
+              | ok a => rw [h4] at h; cases h; rfl
+
+theorem setIfInBounds_getD_self (a : Array Nat) (i : Nat) : a.setIfInBounds i (a.getD i 0) = a := by
+  apply Array.ext
+  · simp
+  · intro k h1 h2
+    rw [Array.getElem_setIfInBounds]
+    split
+    · next e => subst e; simp [Array.getD_eq_getD_getElem?, h2]
+    · rfl
+
+/-- a failed `WeightedIndex::new` (`none`) is indistinguishable from drawing the old start -/
+theorem next_none_eq {K : Nat} (D : Data) (P : Params) (s : State K) (z : Nat) (d : Bool) :
+    next D P s ⟨z, none, d⟩ = next D P s ⟨z, some (st s z), d⟩ := by
+  unfold next
+  dsimp only
+  by_cases hc : s.converged = true
+  · rw [if_pos hc, if_pos hc]
+  · rw [if_neg hc, if_neg hc]
+    cases hs : selectHoldout P s z with
+    | error e => rfl
+    | ok z' =>
+      dsimp only
+      cases ht : s.active.test z' with
+      | error e => rfl
+      | ok wa =>
+        dsimp only
+        cases he : excludeSequence D P.w s z' with
+        | error e => rfl
+        | ok s1 =>
+          dsimp only
+          have hz : z' = z := by
+            unfold selectHoldout at hs
+            repeat' split at hs
+            all_goals (cases hs; try rfl)
+          subst hz
+          have : updateHoldout s1 z' (some (st s z')) = updateHoldout s1 z' none := by
+            show { s1 with starts := s1.starts.setIfInBounds z' (st s z') } = s1
+            have h1 := excludeSequence_starts he
+            have : st s z' = s1.starts.getD z' 0 := by unfold st; rw [h1]
+            rw [this, setIfInBounds_getD_self]
+          rw [this]
+
 end Sampler
 end LMV
